@@ -586,7 +586,7 @@ def judge(acc, case, obs):
                 "caller": 777 if (full and case["det"]) else None}
         ninv = sum(1 for e, j in case["script"] if e == "inv" and j == i)
         if len(calls) != 1 or calls[0] != want:
-            acc.bad("C10|endpoint-arguments|%s|%s|%s" % (bsig, tname, fw),
+            acc.bad("C10|endpoint-arguments|%s|%s" % (tname, fw),
                     d + "; expected one call %s" % (want,), case)
         # ---- terminal replies
         exp = r["outcome"]
